@@ -1,0 +1,64 @@
+//! Verification hooks (only compiled with `--cfg flexi_logger_verif`).
+//!
+//! A single process-wide handler can be installed by a test harness. Without a handler
+//! (the default) every hook is inert: the clock shim returns the real time, `point` returns
+//! `Ok(())`, and the creation-time lookup returns `None`.
+#![allow(missing_docs)]
+use chrono::DateTime;
+use std::path::Path;
+use std::sync::{Arc, RwLock};
+
+/// What a harness can plug in.
+pub trait Handler: Send + Sync {
+    /// Virtual wall clock; `None` = use the real clock.
+    fn now(&self) -> Option<DateTime<chrono::Local>> {
+        None
+    }
+    /// Virtual creation time of the file at `path`; `None` = use the file metadata.
+    fn creation_time(&self, _path: &Path) -> Option<DateTime<chrono::Local>> {
+        None
+    }
+    /// Called immediately before a file-system effect (`fs:*`) or at a scheduling point
+    /// (`sc:*`). May record the point, block the calling thread, abort the process, or return
+    /// an error that the call site treats like a failure of the effect that follows.
+    fn point(&self, _name: &'static str, _path: Option<&Path>) -> std::io::Result<()> {
+        Ok(())
+    }
+}
+
+static HANDLER: RwLock<Option<Arc<dyn Handler>>> = RwLock::new(None);
+
+pub fn set_handler(h: Option<Arc<dyn Handler>>) {
+    *HANDLER.write().unwrap_or_else(std::sync::PoisonError::into_inner) = h;
+}
+fn handler() -> Option<Arc<dyn Handler>> {
+    HANDLER
+        .read()
+        .unwrap_or_else(std::sync::PoisonError::into_inner)
+        .clone()
+}
+
+/// Shim that shadows `chrono::Local` inside hooked functions.
+pub struct Local;
+impl Local {
+    #[must_use]
+    pub fn now() -> DateTime<chrono::Local> {
+        now_or(chrono::Local::now())
+    }
+}
+#[must_use]
+pub fn now_or(real: DateTime<chrono::Local>) -> DateTime<chrono::Local> {
+    handler().and_then(|h| h.now()).unwrap_or(real)
+}
+#[must_use]
+pub fn creation_time(path: &Path) -> Option<DateTime<chrono::Local>> {
+    handler().and_then(|h| h.creation_time(path))
+}
+/// # Errors
+/// Whatever the installed handler decides to inject.
+pub fn point(name: &'static str, path: Option<&Path>) -> std::io::Result<()> {
+    match handler() {
+        Some(h) => h.point(name, path),
+        None => Ok(()),
+    }
+}
